@@ -234,8 +234,10 @@ def gen_case(rng, pid, tier):
     ops.append(['tick', now])
     ops.append(['cycle'])
     if pid in ('C01', 'C02') and rng.random() < 0.3:
-        # large magnitudes with near-exact fits: capacities k*2^17, demands d*2^17 + {-1,0,1,2}
-        big = 2 ** 17
+        # large magnitudes with near-exact fits: capacities k*big, demands d*big + {-1,0,1,2}, big = 2^17
+        # (side stream: sometimes k*2^22 - past 2^24, where a 32-bit float no longer holds every integer)
+        import random as _random
+        big = 2 ** 17 if _random.Random(repr(rng.getstate()[1][:4])).random() < 0.6 else 2 ** 22
         for srv in servers:
             srv[2] = [x * big for x in srv[2]]
         for al in allocs:
